@@ -179,6 +179,13 @@ def run_property(ctx, pid, block_kind, what):
     corr_ok = not d["diffs"]
     po = prop_oracle(ctx, bins["flat"], 3000 if quick else 100000)
     bl = block_runs(ctx, bins["flatblock"], block_kind, 200 if quick else 4000)
+    # driven runs of the real Scheduler (deterministic driver, stragglers, slow database) on blocks of
+    # this family, replayed by the Stm acceptor and compared with in-order stock revm
+    from checklib.props import stm_common as sc
+    sc.setup()
+    sched_opts = {"C08": ["txs=3..7", "workers=2,3", "opts=destroy,create,shared,chain", "strat=mix2"],
+                  "C09": ["txs=3..7", "workers=2,3", "opts=auth,create,shared", "strat=mix2"]}[pid]
+    sagg, sbins, _ = sc.run_sweeps(ctx, [("sched", 81 if pid == "C08" else 91, 400 if quick else 8000, sched_opts)])
     kd = bl.get("contracts_empty_code_only_in_oracle", 0)
     if kd:
         core.log("regression: %d block case(s) where only stock revm's bundle.contracts holds the KECCAK_EMPTY -> empty-code entry "
@@ -190,7 +197,12 @@ def run_property(ctx, pid, block_kind, what):
     for l in bl["mismatch_lines"][:3]:
         concrete.append(dict(kind="block through the public Scheduler API vs stock revm in order", detail=l,
                              replay="target/release/flatblock %s %d %d <outdir> %s" % (block_kind, ctx.seed, bl.get("cases", 0), l.split()[0])))
+    for c in sagg["oracle_mismatch"][:1]:
+        concrete.append(dict(kind="driven run of the Scheduler vs stock revm in order", detail=open(c["file"]).read()[:3000] if c.get("file") else "",
+                             replay=sc.replay_cmd(c)))
     broken = list(proof["problems"])
+    for c in (sagg["rejected"] + sagg["nondet"] + sagg["model_vs_oracle"])[:3]:
+        broken.append("scheduler trace not accepted by the Coq acceptor: %s [%s]" % (c["why"][:300], sc.replay_cmd(c)))
     for x in d["diffs"][:3]:
         broken.append("op-sequence differential: seed %d case %d line %d impl `%s` model `%s`" % (x["seed"], x["case_index"], x["line"], x["impl"][:300], x["model"][:300]))
     if concrete:
@@ -205,7 +217,8 @@ def run_property(ctx, pid, block_kind, what):
         trusted_base=core.TRUSTED_COMMON + ["axioms per Print Assumptions: " + str(proof["axioms"]),
             "stock revm 40 (revm-database State, mainnet EVM) as in-order reference of the property oracle and block runs"],
         theorems=proof["theorems"],
-        evaluations=d["cases"] + po["cases"] + bl.get("cases", 0),
+        evaluations=d["cases"] + po["cases"] + bl.get("cases", 0) + sagg["cases"],
+        driven_scheduler_runs=dict(cases=sagg["cases"], acceptor_verdicts=sagg["kinds"], oracle_mismatches=len(sagg["oracle_mismatch"]), options=sched_opts),
         distinct_nontrivial=d["nontrivial"],
         rule="op-sequence cases: seeded sequences of begin / basic / storage / code_by_hash / finish(EvmState) / discard on two interleaved real IncarnationDb handles over one MVMemory + Beneficiary, raw entries (estimates, stale incarnations, wrong kinds), failing backing store; compared per command with the extracted model: returned values, read set, write set, blockers and the whole memory. non-trivial = distinct case in which some read set resolved a "
              + ("StorageReset" if pid == "C08" else "Code") + " location to an in-block version",
